@@ -139,6 +139,7 @@ class SimActorSystem:
         self.interrupt_at = None  # virtual time at which the external ask raises KeyboardInterrupt
         self.on_deliver = None  # observation hook (cell, msg, sender)
         self.on_handled = None  # observation hook (cell, msg), after the handler returned
+        self.on_send = None  # observation hook (src cell or None, dst cell, msg): anchors faults on protocol events
         self.on_step = None
         self.timer_late = k.get("timer_late", True)
         self.hang = None
@@ -211,6 +212,8 @@ class SimActorSystem:
         self.pair_last[key] = t
         self.log("send", src.name if src else "-", dst.name, type(msg).__name__)
         self.push(t, "msg", (dst.aid, src.aid if src else 0, payload, type(msg).__name__))
+        if self.on_send:
+            self.on_send(src, dst, msg)
 
     def create_actor(self, cls, requirements, parent):
         if parent is not None and parent.exiting:
